@@ -34,6 +34,10 @@ RULE = ("text stream: every truncation of hand-written documents and of tests/fi
         "errors rendered (to_dict/str/repr) by a logging middleware, by the resolver, or at creation (module-level constants living across "
         "requests) before the executor registers them; extensions as dict / OrderedDict / MappingProxyType / custom Mapping / nested containers; "
         "3-request histories where each rendered response is decorated (requestId) before the next request; "
+        "every stream rotates through the SUBMISSION FORMS the entry points accept (source str; pre-parsed Document with locations; parsed with "
+        "no_location=True; stripped of loc and source as a hand-built / visitor-rewritten document); HOSTILE TEXT (%, %s, %(x)s, {}, {0}, backslashes, "
+        "quotes, line ends, NUL, astral, lone surrogates, 5000 characters) in every request string that reaches an error message: rejected variable values "
+        "(scalars, enums, lists, input objects, keys), operation names, literals echoed by validation, variable defaults, resolver messages and extensions; "
         "ResolverErrors raised while a value is COMPLETED (resolve_type of abstract types, lazy iterables failing mid-iteration, custom serialisers) "
         "at object/list/leaf positions; @skip/@include on fields, inline fragments and spreads whose condition only fails at execution time "
         "(root and nested, below lists); numeric extremes (inf, nan, 1e308, 10**400, 2**31, denormals...) as variables and literals for Int/Float/ID/"
@@ -46,11 +50,13 @@ ASSUMPTIONS = [
     "a server may decorate the TOP LEVEL of an error's `extensions` in a rendered response; mutation of NESTED containers inside extensions is not exercised (to_dict copies one level)",
     "a root-level failure (root selection set cannot be collected) is the site with the EMPTY path: `data` is null and there is exactly one error, "
     "without a `path` entry; errors collected below a field before its completion failed are dominated by that field's error and not counted",
+    "the entry points accept `Union[str, Document]`: bytes are not a submission form (a bytes object is taken for a Document) and are not exercised",
+    "for a Document without locations (or nodes without source) `locations` is absent from every error; when present they must lie inside the text the document was parsed from",
     "lines of the submitted text are delimited by the spec's LineTerminator (LF | CR | CRLF)",
 ]
 TRUSTED = [
     "extraction of Generated/ResponseKeys.lean: static route = the expected syntactic shape; dynamic fallback = the same table obtained by running the real "
-    "code on the COMPLETE finite domain (9 located classes x 2 messages x 4 node kinds x 5 paths x 4 extension kinds = 600 error objects, 7 syntax-error "
+    "code on the COMPLETE finite domain (9 located classes x 2 messages x 7 node kinds x 5 paths x 4 extension kinds = 1050 error objects, 7 syntax-error "
     "classes x 4 positions, 2 execution classes, 12 GraphQLResult shapes, 17 requests x 2 entry points over the 4 abort sites) and required to match the table's prediction everywhere",
     "error objects are values in the Lean model: sharing/mutation of one exception object between registrations (X6, cached coercion failures) is exercised by the oracle (null sites computed without looking at the errors) and the correspondence, not proved",
     "highlight_location (the text after the message of a syntax error) is opaque in the model: only its totality for positions <= len is exercised",
@@ -166,7 +172,7 @@ def abs_err(e):
     return {"cls": "other:" + type(e).__name__, "msg": O.clean(str(e))}
 
 
-def observe_stages(schema, text, operation_name, variables, executor="blocking", middlewares=None):
+def observe_stages(schema, text, operation_name, variables, executor="blocking", middlewares=None, document=None):
     """
     Run the real stage functions one by one. -> (stages dict for the model, failed stage or None,
     ('internal', stage, exc) if a stage raised something that is not its documented exception).
@@ -179,7 +185,7 @@ def observe_stages(schema, text, operation_name, variables, executor="blocking",
     from py_gql.utilities import coerce_variable_values
     st = {"text": O.cps(text)}
     try:
-        doc = parse(text)
+        doc = document if document is not None else parse(text)
     except GraphQLSyntaxError as e:
         try:
             st["parse"] = abs_err(e)
@@ -354,6 +360,44 @@ def expected_sites(world, data):
 # ---------------------------------------------------------------------------
 # one case = one request on one configuration
 
+FORMS = ["str", "doc", "doc-noloc", "doc-bare"]
+
+
+def submission(text, form):
+    """
+    the object handed to the entry point: the source text, a pre-parsed Document (with locations / parsed with
+    `no_location=True`: nodes keep `source`, `loc` is None / stripped by hand: `loc` and `source` None, as a document
+    built by hand or rewritten by a visitor). A text that does not parse can only be submitted as text.
+    """
+    if form == "str":
+        return text
+    from py_gql.lang import parse
+    from py_gql.lang import ast as _ast
+    from py_gql.exc import GraphQLSyntaxError
+    try:
+        doc = parse(text, no_location=(form == "doc-noloc"))
+    except (GraphQLSyntaxError, IndexError):
+        return text
+    if form == "doc-bare":
+        seen = set()
+
+        def strip(n):
+            if isinstance(n, _ast.Node) and id(n) not in seen:
+                seen.add(id(n))
+                try:
+                    n.loc = None
+                    n.source = None
+                except AttributeError:
+                    pass
+                for a in getattr(n, "__slots__", ()):
+                    strip(getattr(n, a, None))
+            elif isinstance(n, (list, tuple)):
+                for x in n:
+                    strip(x)
+        strip(doc)
+    return doc
+
+
 def canon_resp(resp, sort_errors):
     r = O.enc(resp)
     if sort_errors and isinstance(r, dict) and isinstance(r.get("errors"), list):
@@ -403,13 +447,19 @@ def check_case(ctx, case, pending):
     wparams = case.get("world") or {"seed": 0}
     world_s = sync_holder.world = G.World(schema=sync_schema, **wparams)
     # --- stages, observed separately (sync resolvers, blocking executor) ---------------------
-    stages, failed, internal = observe_stages(sync_schema, text, case.get("operation_name"), case.get("variables"), middlewares=mws)
+    form = case.get("form") or "str"
+    subm = submission(text, form)
+    if isinstance(subm, str):
+        form = "str"
+    ctx.stat("form:" + form)
+    stages, failed, internal = observe_stages(sync_schema, text, case.get("operation_name"), case.get("variables"), middlewares=mws,
+                                              document=None if form == "str" else submission(text, form))
     calls_blocking = list(world_s.calls)
     injected = bool(world_s.injected_nonfinite)
     ctx.stat("stage:" + (failed or "executed"))
     # --- the entry point ------------------------------------------------------------------------------
     world = holder.world = G.World(schema=schema, **wparams)
-    status, res = call_entry(cfg, schema, text, **kw)
+    status, res = call_entry(cfg, schema, subm, **kw)
     ctx.count()
     if status == "raised":
         cls = type(res).__name__
@@ -532,7 +582,7 @@ def check_case(ctx, case, pending):
                 ctx.fail("corr:wellformed:" + (failed or "executed"), "Lean WellFormed and Python well_formed disagree on the real response",
                          dict(detail, lean=ans.get("wf_real"), python=wf_py, real=real), kind="correspondence")
         pending.append(({"op": "process", "stages": stages, "real": real}, on_answer))
-        if failed is None and world is not None and cfg == "blocking":
+        if failed is None and world is not None and cfg == "blocking" and form in ("str", "doc"):
             world_s.calls = calls_blocking
             # node position / extensions of the errors of fields that failed WITHOUT their resolver raising (argument
             # coercion, completion): only used to place the model's locations
@@ -615,14 +665,15 @@ def flush(ctx, pending):
 
 BASE_SDL = """
 scalar Sc
+enum Color { RED GREEN }
 type Query { a(x: Int, s: String): Int, b: String!, f: Float, l: [Int!]!, o: Obj, os: [Obj!], u: Un, oss: [[Obj]],
-  us: [Un!], un: Un!, uss: [[Un]], sc: Sc, scs: [Sc!]!, num(i: Int, fl: Float, id: ID, sc: Sc, b: Boolean, fls: [Float!]): Int,
+  us: [Un!], un: Un!, uss: [[Un]], sc: Sc, scs: [Sc!]!, num(i: Int, fl: Float, id: ID, sc: Sc, b: Boolean, fls: [Float!], c: Color): Int,
   echoI(i: Int): Int, echoF(fl: Float): Float, echoId(id: ID): ID, echoS(s: String): String }
 type Obj { id: ID!, n: Obj, v: Float!, w(x: Int! = 7): Int, p(among: [Int!]): Int!, q(i: In): Int, ns: [Obj!]! }
 type Other { z: Int }
 union Un = Obj | Other
 type Mutation { m(i: In): Int }
-input In { k: Int! = 1, t: [String!] }
+input In { k: Int! = 1, t: [String!], c: Color }
 type Subscription { tick: Int }
 """
 
@@ -640,6 +691,7 @@ VALID_TEXTS = [
 ]
 
 MALFORMED = [
+    "{ a % }", "%s", "%(x)s", "{ a(s: \"%s %(x)s {0} {}\") zz }", "{ a(s: \"100%\" }", "{ %d }", "# 100% {0} %s\n{ zz }", "{ a(s: \"\\\\\") % }",
     "", " ", "\n", "\r", "\r\n", "\ufeff", "{", "}", "{ a", "{ a(", "{ a(x:", "{ a(x: $", "{ a(s: \"", "{ a(s: \"\\", "{ a(s: \"\\u", "{ a(s: \"\\u12",
     "{ a(s: \"\\u12\r\n", "{ a(s: \"abc\r\n\") }", "{ a(s: \"\"\"abc", "{ a(s: \"\"\"abc\\", "{ a \x00 }", "{ a \x7f }", "{ a(s: \"\x01\") }",
     "{ a\r\r\r$ }", "{ a\r\n\r\n$ }", "{ a\n\n\n$ }", "{ a\r\r\rzz }", "{ a\r\n\r\nzz }", "\r\r{ zz\r é\r}", "é", "…", "\U0001d4b3", "{ \U0001d4b3 }",
@@ -746,14 +798,22 @@ def schemas_for(sdl):
     return {"blocking": (s, h), "default": (s, h), "threadpool": (s, h), "asyncio": (sa, ha)}
 
 
-def make_case(stream, sdl, built, cfg, text, operation_name=None, variables=None, world=None, note=None, middleware=False):
+_ROT = [0]
+
+
+def make_case(stream, sdl, built, cfg, text, operation_name=None, variables=None, world=None, note=None, middleware=False, form="rotate"):
     schema, holder = built[cfg]
+    if form == "rotate":        # every stream goes through every submission form (deterministic rotation)
+        _ROT[0] += 1
+        form = ["str", "doc", "str", "doc-noloc", "str", "doc-bare", "doc"][_ROT[0] % 7]
     c = {"stream": stream, "sdl": sdl, "cfg": cfg, "text": text, "operation_name": operation_name,
          "variables": variables, "world": world, "_schema": schema, "_holder": holder, "_sync": built["blocking"]}
     if note:
         c["note"] = note
     if middleware:
         c["middleware"] = True
+    if form and form != "str":
+        c["form"] = form
     return c
 
 
@@ -887,6 +947,31 @@ def _run(ctx, rng, pending):
                      "query($x: Float = %s) { echoF(fl: $x) a }", "query($x: Int = %s) { echoI(i: $x) }", "{ num(fls: [1, %s]) }"):
             t = text % ((lit,) * text.count("%s"))
             check_case(ctx, make_case("extremes", BASE_SDL, base, CONFIGS[j % 4], t, None, None, quiet_world), pending)
+    flush(ctx, pending)
+    # HOSTILE TEXT in every string that flows from the request into an error MESSAGE: rejected variable values (scalars, enums,
+    # input objects, lists), operation names, literals echoed by validation errors, variable defaults; and as accepted
+    # values (echoed data). Format directives, braces, backslashes, quotes, line ends, NUL, astral, lone surrogates, long.
+    def lit(h):
+        return json.dumps(h)       # a GraphQL string literal with the same escapes
+    two_ops = "query A { a } query B { b }"
+    for j, h in enumerate(G.HOSTILE):
+        reqs = [
+            ("query($x: Int) { a(x: $x) }", None, {"x": h}), ("query($x: Int!) { a(x: $x) }", None, {"x": {"tag": h}}),
+            ("query($x: Float) { num(fl: $x) }", None, {"x": h}), ("query($x: Boolean) { num(b: $x) }", None, {"x": [h]}),
+            ("query($x: ID) { num(id: $x) }", None, {"x": {h: h}}), ("query($c: Color) { num(c: $c) }", None, {"c": h}),
+            ("query($l: [Float!]) { num(fls: $l) }", None, {"l": [1, h]}), ("query($l: [Float!]) { num(fls: $l) }", None, {"l": h}),
+            ("mutation($i: In) { m(i: $i) }", None, {"i": {"k": h}}), ("mutation($i: In) { m(i: $i) }", None, {"i": {"tag": h, h: 1}}),
+            ("mutation($i: In) { m(i: $i) }", None, {"i": {"t": [h, None], "c": h}}), ("mutation($i: In!) { m(i: $i) }", None, {"i": h}),
+            (two_ops, h, None), ("query A { a }", h, {h: h}),
+            ("{ a(x: %s) }" % lit(h), None, None), ("{ num(c: %s, b: %s) }" % (lit(h), lit(h)), None, None),
+            ("{ num(fls: [1, %s]) os { q(i: {k: %s, c: %s}) } }" % (lit(h), lit(h), lit(h)), None, None),
+            ("query($x: Int = %s) { a(x: $x) }" % lit(h), None, None), ("query($c: Color = RED) { num(c: $c) a(s: %s) zz }" % lit(h), None, {"c": h}),
+            ("{ echoS(s: %s) }" % lit(h), None, None), ("query($s: String) { echoS(s: $s) echoId(id: $s) }", None, {"s": h}),
+        ]
+        for r, (text, opn, vs) in enumerate(reqs):
+            check_case(ctx, make_case("hostile", BASE_SDL, base, CONFIGS[(j + r) % 4], text, opn, vs, quiet_world), pending)
+        if len(pending) > 3000:
+            flush(ctx, pending)
     flush(ctx, pending)
     # HISTORIES: the same request three times in a row (module-level constant errors are re-raised by every request; each
     # rendered response is decorated by the "server" before the next request), lists of >= 2 items, errors rendered by a
@@ -1024,7 +1109,7 @@ def run_plain(ctx, item, pending, base):
     sdl = item.get("sdl") or BASE_SDL
     built = base if sdl == BASE_SDL else schemas_for(sdl)
     case = make_case(item.get("stream", "corpus"), sdl, built, item.get("cfg", "blocking"), item["text"],
-                     item.get("operation_name"), item.get("variables"), item.get("world"), middleware=bool(item.get("middleware")))
+                     item.get("operation_name"), item.get("variables"), item.get("world"), middleware=bool(item.get("middleware")), form=item.get("form") or "str")
     return check_case(ctx, case, pending)
 
 
